@@ -107,7 +107,7 @@ pub fn gen_recipe(r: &mut Rng, uniq: u64, rich: bool) -> Recipe {
     };
     Recipe {
         ts_delta,
-        miner: r.below(4) as u8,
+        miner: if r.chance(1, 12) { 250 } else { r.below(4) as u8 },
         new_txs: if rich { r.urange(0, 3) } else { 0 },
         propose: if rich { r.urange(0, 4) } else { 0 },
         commit: if rich { r.urange(0, 4) } else { 0 },
